@@ -125,6 +125,19 @@ class SLEWorld:
         self.tot = sum(_rows(self.s).values())
         self.q = np.where(self.tot > 0, self.tot / QUANTA, 1e-8)
 
+    def change_solvents(self, rng):
+        """add or remove solvents between calls (the same stream and solver object keep being used)"""
+        if self.pure or rng.random() < 0.5:
+            for sv in rng.sample(['Water', 'Ethanol', 'Octane'], rng.choice([1, 2])):
+                self.s.imol['l', sv] = 10 ** rng.uniform(-2, 2)
+            self.pure = False
+        else:
+            for sv in ['Water', 'Ethanol', 'Octane']:
+                self.s.imol['l', sv] = 0.
+            self.pure = True
+        self.tot = sum(_rows(self.s).values())
+        self.q = np.where(self.tot > 0, self.tot / QUANTA, 1e-8)
+
     def sle(self, T, solubility):
         obs = dict(exc=NONE, msg='', moved_other=False, x6=0, xmax6=-1, solid=0, liquid=0, pure=self.pure, above=False)
         j = IDS.index(self.solute)
